@@ -99,7 +99,15 @@ class Recorder:
             finally:
                 rec.depth -= 1
             try:
-                rec.add({'t': 'connect', 'left': jl, 'right': jr, 'real': {'ok': rec.bag(res)}})
+                r = {'t': 'connect', 'left': jl, 'right': jr, 'real': {'ok': rec.bag(res)}}
+                # composing never changes its operands: both bags must look exactly as before the call
+                al, ar = rec.bag(left), rec.bag(right)
+                if al != jl or ar != jr:
+                    which, before, after = ('left', jl, al) if al != jl else ('right', jr, ar)
+                    keys = [k for k in before if before[k] != after[k]]
+                    r['mutated'] = {'operand': which, 'fields': keys, 'before': {k: before[k] for k in keys[:2]},
+                                    'after': {k: after[k] for k in keys[:2]}}
+                rec.add(r)
             except Unsupported:
                 rec.skipped += 1
             return res
@@ -271,6 +279,10 @@ def compare(rec, ans):
     """-> None or a description of the difference between what the real code did and what the model did"""
     real = rec['real']
     t = rec['t']
+    if rec.get('mutated'):
+        m = rec['mutated']
+        return {'what': f'connect_bags changed its {m["operand"]} operand ({", ".join(m["fields"])})', 'before': m['before'], 'after': m['after'],
+                'oracle': True}
     if t == 'compile':
         if 'err' in real or 'err' in ans:
             return None if real.get('err') == ans.get('err') else {'real': real.get('err', 'ok'), 'model': ans.get('err', 'ok')}
